@@ -9,6 +9,46 @@
 #include "cbor/internal/builder_callbacks.h"
 #include "cbor/internal/loaders.h"
 
+#ifdef LIBCBOR_VERIF
+#include "cbor/internal/verif_hooks.h"
+cbor_verif_load_hook_t cbor_verif_load_hook = NULL;
+#define CBOR_VERIF_LOAD_STEP(offset_before)                                   \
+  do {                                                                        \
+    if (cbor_verif_load_hook != NULL) {                                       \
+      struct cbor_verif_load_event verif_event = {                            \
+          .kind = CBOR_VERIF_LOAD_STEP_EVENT,                                 \
+          .source = source,                                                   \
+          .source_size = source_size,                                         \
+          .offset = (offset_before),                                          \
+          .decode_result = &decode_result,                                    \
+          .stack = &stack,                                                    \
+          .context = &context,                                                \
+          .result = result,                                                   \
+          .item = NULL};                                                      \
+      cbor_verif_load_hook(&verif_event);                                     \
+    }                                                                         \
+  } while (0)
+#define CBOR_VERIF_LOAD_RETURN(stack_ptr, context_ptr, returned_item)         \
+  do {                                                                        \
+    if (cbor_verif_load_hook != NULL) {                                       \
+      struct cbor_verif_load_event verif_event = {                            \
+          .kind = CBOR_VERIF_LOAD_RETURN_EVENT,                               \
+          .source = source,                                                   \
+          .source_size = source_size,                                         \
+          .offset = 0,                                                        \
+          .decode_result = NULL,                                              \
+          .stack = (stack_ptr),                                               \
+          .context = (context_ptr),                                           \
+          .result = result,                                                   \
+          .item = (returned_item)};                                           \
+      cbor_verif_load_hook(&verif_event);                                     \
+    }                                                                         \
+  } while (0)
+#else
+#define CBOR_VERIF_LOAD_STEP(offset_before)
+#define CBOR_VERIF_LOAD_RETURN(stack_ptr, context_ptr, returned_item)
+#endif
+
 cbor_item_t* cbor_load(cbor_data source, size_t source_size,
                        struct cbor_load_result* result) {
   /* Context stack */
@@ -47,6 +87,7 @@ cbor_item_t* cbor_load(cbor_data source, size_t source_size,
 
   if (source_size == 0) {
     result->error.code = CBOR_ERR_NODATA;
+    CBOR_VERIF_LOAD_RETURN(NULL, NULL, NULL);
     return NULL;
   }
   struct _cbor_stack stack = _cbor_stack_init();
@@ -63,6 +104,7 @@ cbor_item_t* cbor_load(cbor_data source, size_t source_size,
       decode_result =
           cbor_stream_decode(source + result->read, source_size - result->read,
                              &callbacks, &context);
+      CBOR_VERIF_LOAD_STEP(result->read);
     } else {
       result->error = (struct cbor_error){.code = CBOR_ERR_NOTENOUGHDATA,
                                           .position = result->read};
@@ -100,6 +142,7 @@ cbor_item_t* cbor_load(cbor_data source, size_t source_size,
     }
   } while (stack.size > 0);
 
+  CBOR_VERIF_LOAD_RETURN(&stack, &context, context.root);
   return context.root;
 
 error:
@@ -111,6 +154,7 @@ error:
     cbor_decref(&stack.top->item);
     _cbor_stack_pop(&stack);
   }
+  CBOR_VERIF_LOAD_RETURN(&stack, &context, NULL);
   return NULL;
 }
 
